@@ -80,7 +80,7 @@ func (w *c13World) writePolicy(n int, code []int, emptyFiles bool) {
 			os.MkdirAll(filepath.Dir(p), 0755)
 		}
 		if code[i] != 0 {
-			os.WriteFile(p, []byte(fmt.Sprintf("content %d of slot %d\n", code[i], i)), 0644)
+			os.WriteFile(p, c13Content(code[i], i), 0644)
 			if sl[1] == "" {
 				walked = true
 			}
@@ -106,6 +106,24 @@ func (w *c13World) writePolicy(n int, code []int, emptyFiles bool) {
 	cur := filepath.Join(w.dir, "policies", "current")
 	os.Remove(cur)
 	os.Symlink(fmt.Sprintf("p%d", n), cur)
+}
+
+// c13Content maps the abstract value k of slot i to file content such that different values give different
+// content AND the contents of one slot are related the way real code files of successive policies are: in even
+// slots a smaller value is a strict PREFIX of every larger one (rules appended / removed at the end), in odd slots a
+// strict SUFFIX (rules prepended / removed at the top); all contents of a slot share their first and last line.
+// (Seeded change C13-W1: a compressed old file was only read up to the length of the current file.)
+func c13Content(k, i int) []byte {
+	var lines []string
+	for j := 1; j <= k; j++ {
+		lines = append(lines, fmt.Sprintf("line %d of slot %d\n", j, i))
+	}
+	if i%2 == 1 {
+		for a, b := 0, len(lines)-1; a < b; a, b = a+1, b-1 {
+			lines[a], lines[b] = lines[b], lines[a]
+		}
+	}
+	return []byte(strings.Join(lines, ""))
 }
 
 func eqCode(a, b []int) bool {
@@ -271,9 +289,33 @@ func c13GenHistory(rng *RNG, maxLen int) []c13Event {
 				e.Arg = codes[len(codes)-1] // new policy, same code for this device
 			case r < 45:
 				e.Arg = Pick(rng, codes) // revert to an earlier code
+			case r < 70:
+				// one file of the previous code grows, shrinks or vanishes (its content stays a prefix / suffix)
+				c := c13Code(codes[len(codes)-1])
+				i := rng.Intn(len(c))
+				switch rng.Intn(3) {
+				case 0:
+					c[i]++
+				case 1:
+					if c[i] > 0 {
+						c[i]--
+					}
+				default:
+					c[i] = 0
+				}
+				var fs []string
+				for _, v := range c {
+					fs = append(fs, strconv.Itoa(v))
+				}
+				e.Arg = strings.Join(fs, ",")
 			}
 			codes = append(codes, e.Arg)
 			npol++
+			if rng.Chance(30) {
+				// old policies are compressed soon after they stop being current
+				es = append(es, e)
+				e = c13Event{Kind: "bz", Arg: strconv.Itoa(1 + rng.Intn(npol-1))}
+			}
 		case k < 38:
 			e.Kind = "ok"
 		case k < 50:
@@ -458,6 +500,12 @@ func runC13(ctx *Ctx) *Result {
 		{{Kind: "np", Arg: "1,0,0,0,0,0"}, {Kind: "cmp"}, {Kind: "ok"}, {Kind: "drift", Arg: "2,0,0,0,0,0"}, {Kind: "cmp"}, {Kind: "cmp"},
 			{Kind: "ok"}, {Kind: "cmp"}, {Kind: "np", Arg: "1,0,0,0,0,0"}, {Kind: "bz", Arg: "1"}},
 	}
+	corpus = append(corpus,
+		// C13-W1: the current file is a strict prefix / suffix of the compressed file of the device's policy, or empty
+		[]c13Event{{Kind: "np", Arg: "3,0,0,0,0,0"}, {Kind: "ok"}, {Kind: "np", Arg: "2,0,0,0,0,0"}, {Kind: "bz", Arg: "1"}},
+		[]c13Event{{Kind: "np", Arg: "1,3,0,0,0,0"}, {Kind: "ok"}, {Kind: "np", Arg: "1,2,0,0,0,0"}, {Kind: "bz", Arg: "1"}},
+		[]c13Event{{Kind: "np", Arg: "1,0,2,0,0,0"}, {Kind: "cmp"}, {Kind: "np", Arg: "1,0,0,0,0,0"}, {Kind: "bz", Arg: "1"}},
+		[]c13Event{{Kind: "np", Arg: "2,0,0,0,0,0"}, {Kind: "ok"}, {Kind: "np", Arg: "3,0,0,0,0,0"}, {Kind: "bz", Arg: "1"}})
 	for _, es := range corpus {
 		runHistory(es, ctx.Rng.Fork())
 	}
